@@ -105,7 +105,7 @@ func c08(p *core.Program, r *core.Report) {
 
 	// ---- rule 2: polarity
 	const r2 = "min-max-polarity"
-	r.Rule(r2, "in NewBounds, extendFlatCoords, extendLayout, extendStride, extendXYZMFlatCoordsWithXYM every value stored or appended into Bounds.min is math.Min(min[k], .) with the same k, math.Inf(+1), or an element of min; symmetrically max with math.Max / math.Inf(-1)", 14)
+	r.Rule(r2, "in NewBounds, extendFlatCoords, extendLayout, extendStride, extendXYZMFlatCoordsWithXYM every value stored or appended into Bounds.min is math.Min(min[k], .) with the same k, math.Inf(+1), or an element of min; symmetrically max with math.Max / math.Inf(-1)", 8)
 	// every function of package geom declared in the file(s) that define Bounds' methods and that writes min/max
 	// (the set is not a name list: a kernel inlined into Extend, or split out of it, stays covered)
 	p.Decls(true, func(pkg *packages.Package, obj *types.Func, fd *ast.FuncDecl) {
@@ -501,6 +501,20 @@ func zmPairs(p *core.Program, pkg *packages.Package, fd *ast.FuncDecl) (map[[2]i
 	scan := func(n ast.Node) bool {
 		found := false
 		ast.Inspect(n, func(m ast.Node) bool {
+			// the per-ordinate fold moved into a helper: helper(<constant slot>, flat[base+<constant>]) stands for the
+			// min and the max update of that slot
+			if c, isC := m.(*ast.CallExpr); isC && len(c.Args) == 2 {
+				if d, okD := eng.ConstInt64(eng.ConstOf(pkg.TypesInfo, c.Args[0])); okD {
+					if ie, okI := c.Args[1].(*ast.IndexExpr); okI && boundsSide(pkg, fd, c.Args[1]) == "" {
+						if be, okB := ie.Index.(*ast.BinaryExpr); okB && be.Op == token.ADD {
+							if sv, okS := eng.ConstInt64(eng.ConstOf(pkg.TypesInfo, be.Y)); okS {
+								pairs[[2]int64{d, sv}] += 2
+								found = true
+							}
+						}
+					}
+				}
+			}
 			x, ok := m.(*ast.AssignStmt)
 			if !ok || len(x.Lhs) != 1 || len(x.Rhs) != 1 {
 				return true
